@@ -3,6 +3,7 @@ package main
 import (
 	"fmt"
 	"go/types"
+	"os"
 	"sort"
 	"strings"
 
@@ -55,6 +56,38 @@ type simMemKey struct {
 	f  int
 }
 
+// boolFieldsRead: boolean struct fields that some function of the module reads
+// (computed once per loaded program); only those are worth tracking.
+var boolFieldsRead map[*types.Var]bool
+
+func computeBoolFieldsRead(funcs []*ssa.Function) {
+	boolFieldsRead = map[*types.Var]bool{}
+	for _, fn := range funcs {
+		for _, b := range fn.Blocks {
+			for _, in := range b.Instrs {
+				switch x := in.(type) {
+				case *ssa.UnOp:
+					if fa, ok := x.X.(*ssa.FieldAddr); ok && x.Op.String() == "*" && isBoolT(x.Type()) {
+						if st := structOf(fa.X.Type()); st != nil {
+							boolFieldsRead[st.Field(fa.Field)] = true
+						}
+					}
+				case *ssa.Field:
+					if isBoolT(x.Type()) {
+						if st := structOf(x.X.Type()); st != nil {
+							boolFieldsRead[st.Field(x.Field)] = true
+						}
+					}
+				}
+			}
+		}
+	}
+}
+
+func trackedField(st *types.Struct, i int) bool {
+	return isBoolT(st.Field(i).Type()) && (boolFieldsRead == nil || boolFieldsRead[st.Field(i)])
+}
+
 func (s *Sim) memSet(k simMemKey, val, known bool) {
 	old, had := s.mem[k]
 	s.env.undo = append(s.env.undo, func() {
@@ -82,12 +115,17 @@ func structOf(t types.Type) *types.Struct {
 // memStep interprets the instructions that move booleans through fields of
 // local structs: zero initialisation, field stores, whole-struct copies
 // (value receivers, results returned by value), field loads.
+var simNoMem = os.Getenv("RV_NOMEM") != ""
+
 func (s *Sim) memStep(fr *Frame, in ssa.Instruction) {
+	if simNoMem {
+		return
+	}
 	switch x := in.(type) {
 	case *ssa.Alloc:
 		if st := structOf(x.Type()); st != nil {
 			for i := 0; i < st.NumFields(); i++ {
-				if isBoolT(st.Field(i).Type()) {
+				if trackedField(st, i) {
 					s.memSet(simMemKey{fr, x, i}, false, true)
 				}
 			}
@@ -95,8 +133,10 @@ func (s *Sim) memStep(fr *Frame, in ssa.Instruction) {
 	case *ssa.Store:
 		if fa, ok := x.Addr.(*ssa.FieldAddr); ok {
 			if a, ok := fa.X.(*ssa.Alloc); ok && isBoolT(x.Val.Type()) {
-				v, k := s.evalCond(fr, x.Val)
-				s.memSet(simMemKey{fr, a, fa.Field}, v, k)
+				if st := structOf(a.Type()); st != nil && trackedField(st, fa.Field) {
+					v, k := s.evalCond(fr, x.Val)
+					s.memSet(simMemKey{fr, a, fa.Field}, v, k)
+				}
 			}
 			return
 		}
@@ -105,7 +145,7 @@ func (s *Sim) memStep(fr *Frame, in ssa.Instruction) {
 				s.cur = fr
 				sn := s.snap[s.Resolve(x.Val)]
 				for i := 0; i < st.NumFields(); i++ {
-					if !isBoolT(st.Field(i).Type()) {
+					if !trackedField(st, i) {
 						continue
 					}
 					v, k := sn[i]
